@@ -50,6 +50,21 @@ def _run_one(args):
     return puppet.run_program(prog, nroots=nroots)
 
 
+# generic form of the runner used by the property modules
+def explore(check, obs, configs, limit=None, invariants=('NoFault', 'NoForeignSignal', 'RunLive', 'CascadeShape')):
+    if limit is None and check.tier == 'quick':
+        limit = 12000
+    runs = []
+    for label, consts in configs:
+        ws = check.witnesses(label, consts, emit='EmitOps', invariants=list(invariants),
+                             coverage=check.tier == 'thorough')
+        runs += [(p, t, consts['NRoots']) for p, t in replay(check, ws, consts, limit=limit)]
+    for idx, clause, pos in check.validate(obs, [r[1] for r in runs]):
+        check.report(clause, runs[idx][0], runs[idx][1], pos, extra={'NRoots': runs[idx][2]})
+    check.samples = [{'program': r[0], 'trace': r[1][:14]} for r in runs[:: max(1, len(runs) // 3)][:3]]
+    return runs
+
+
 def run_many(progs, nroots, procs=16):
     """execute programs on the real code in worker processes (each simulation is independent)"""
     if len(progs) < 2000:
